@@ -567,8 +567,46 @@ func (x *exec) step(st *State, fr *Frame, b *ssa.BasicBlock, ins ssa.Instruction
 		return true
 	case *ssa.Select:
 		unsupported("select statement")
-	case *ssa.Range, *ssa.Next:
-		unsupported("range over map or string")
+	case *ssa.Range:
+		// iteration over a map or a string is abstracted: Next yields an arbitrary element (no order, no guarantee
+		// that every element is visited exactly once); the loop is cut like any other
+		st.regs[ins] = x.val(st, fr, ins.X)
+		return false
+	case *ssa.Next:
+		it := ins.Iter.(*ssa.Range)
+		coll := x.val(st, fr, ins.Iter)
+		ok := e.ctx.Fresh("nextok", smt.Bool)
+		tup := ins.Type().(*types.Tuple)
+		kt, vt := tup.At(1).Type(), tup.At(2).Type()
+		var kv, vv Value
+		if ins.IsString {
+			kv = e.fresh("ridx", kt)
+			vv = e.fresh("rune", vt)
+			n := e.strLen(coll.one())
+			st.assume(smt.Implies(ok, smt.And(smt.BVCmp("bvsle", zero64, kv.one()), smt.BVCmp("bvslt", kv.one(), n))))
+		} else {
+			mt := types.Unalias(it.X.Type()).Underlying().(*types.Map)
+			if isInvalid(kt) {
+				kt = mt.Key()
+			}
+			if isInvalid(vt) {
+				vt = mt.Elem()
+			}
+			kv = e.fresh("rkey", kt)
+			e.assumeValid(st, kv)
+			hk, ks, vls, vp := x.mapKeys(mt)
+			k := e.leavesOf(kv)[0]
+			has := smt.Select(smt.Select(e.heapArr(st, hk, smt.Ref, smt.ArrayOf(ks, smt.Bool)), coll.one()), k)
+			st.assume(smt.Implies(ok, smt.And(smt.Not(smt.Eq(coll.one(), e.null())), has)))
+			vv = Value{T: vt}
+			for _, l := range vls {
+				arr := e.heapArr(st, vp+l.Path, smt.Ref, smt.ArrayOf(ks, l.Sort))
+				vv.L = append(vv.L, e.ctx.Name("rval", smt.Select(smt.Select(arr, coll.one()), k)))
+			}
+			e.assumeValidUnder(st, ok, vv)
+		}
+		st.regs[ins] = Value{T: ins.Type(), Elems: []Value{scalar(types.Typ[types.Bool], ok), kv, vv}}
+		return false
 	}
 	unsupported("instruction %T", ins)
 	return true
@@ -619,6 +657,11 @@ func addrPrivate(v ssa.Value, depth int) bool {
 		}
 	}
 	return true
+}
+
+func isInvalid(t types.Type) bool {
+	b, ok := t.(*types.Basic)
+	return ok && b.Kind() == types.Invalid
 }
 
 func allocHint(a *ssa.Alloc) string {
